@@ -70,6 +70,13 @@ theorem stream_roundtrip {α} {c : Codec α} {v} (h : c.Good v) (xs : List α) (
     getMany c xs.length (putMany c xs ++ rest) = some (xs, rest) ∧ (putMany c xs).length = (xs.map c.size).sum :=
   ⟨h.stream_roundtrip xs hx rest, h.stream_length xs⟩
 
+/-- reading only the first `m` values of such a stream yields exactly those and leaves the reader at the first byte
+    of value `m`: no call consumes a byte of its successor -/
+theorem stream_partial_read {α} {c : Codec α} {v} (h : c.Good v) (xs : List α) (hx : ∀ x ∈ xs, v x)
+    (m : Nat) (hm : m ≤ xs.length) (rest : List Nat) :
+    getMany c m (putMany c xs ++ rest) = some (xs.take m, putMany c (xs.drop m) ++ rest) :=
+  h.stream_partial xs hx m hm rest
+
 -- instantiated for a structure of the crate: any list of well-formed Rank9Sel values
 example (xs : List R9) (hx : ∀ x ∈ xs, R9.Wf x) (rest : List Nat) :
     getMany R9.codec xs.length (putMany R9.codec xs ++ rest) = some (xs, rest) :=
